@@ -84,6 +84,21 @@ BodyCases ==
         rec == EncDtlsRecord(22, 65277, 0, <<0, 0, j>>, msg) IN
     << Mk("body", HsFn, NoArgs, <<Lit(msg \o <<22>>)>>, <<j>>, Len(msg), Len(msg) + 1),
        Mk("bodyrec", RecFn, NoArgs, <<Lit(rec)>>, <<j>>, Len(rec), Len(rec)) >>])
+(* hello bodies whose trailing extension block LIES about its length (one more than is there, 65535, one less): the message is complete, *)
+(* so the answer is final - the optional block is absent, or the bytes after a short block stay unread - never a request for more          *)
+LieBodies ==
+  LET ch == [t |-> "DClientHello", ver |-> 65277, random |-> R32, sid |-> Some(<<7>>), cookie |-> <<1, 2>>, ciphers |-> <<47, 49199>>, comp |-> <<0>>, ext |-> Some(<<0, 23, 0, 0, 0, 10, 0, 4, 0, 2, 0, 29>>)]
+      sh == [t |-> "ServerHello", ver |-> 65277, random |-> R32, sid |-> None, cipher |-> 49199, comp |-> 0, ext |-> Some(<<0, 23, 0, 0, 255, 1, 0, 1, 0>>)]
+      lie(v, n) == LET bb == EncDtlsBody(v)  k == Len(bb) - Len(v.ext[1]) - 1 IN [j \in 1..Len(bb) |-> IF j = k - 1 THEN n \div 256 ELSE IF j = k THEN n % 256 ELSE bb[j]] IN
+  << <<1, lie(ch, 13)>>, <<1, lie(ch, 65535)>>, <<1, lie(ch, 11)>>, <<1, lie(ch, 0)>>, <<1, lie(ch, 256)>>,
+     <<2, lie(sh, 10)>>, <<2, lie(sh, 65535)>>, <<2, lie(sh, 8)>>, <<2, lie(sh, 0)>> >>
+BodyLieCases ==
+  Concat([j \in 1..Len(LieBodies) |->
+    LET bb == LieBodies[j][2]  msg == EncDtlsHs(LieBodies[j][1], Len(bb), j, 0, Len(bb), bb)
+        rec == EncDtlsRecord(22, 65277, 0, <<0, 0, j>>, msg) IN
+    << Mk("bodylie", HsFn, NoArgs, <<Lit(msg)>>, <<j>>, Len(msg), Len(msg)),
+       Mk("bodylie", HsFn, NoArgs, <<Lit(msg \o <<22, 1, 2>>)>>, <<j>>, Len(msg), Len(msg) + 3),
+       Mk("bodylie", RecFn, NoArgs, <<Lit(rec)>>, <<j>>, Len(rec), Len(rec)) >>])
 (* a handshake message is bounded by its own u24 length, not by the record cap: whole messages above 16640 bytes, called directly *)
 BigBodies == << [t |-> "ClientKeyExchange", kind |-> "Unknown", data |-> Fill(1, 16629)],
                 [t |-> "ClientKeyExchange", kind |-> "Unknown", data |-> Fill(2, 20000)],
@@ -117,7 +132,7 @@ WithHdrCases ==
     Mk("withhdr", "parse_dtls_record_with_header", [NoArgs EXCEPT !.ct = ct, !.ver = 65277, !.len = Len(Pay(ct)[1])],
        <<Lit(Pay(ct)[1])>>, <<>>, 0, 0)]
 
-ASSUME TLCSet(1, FrameCases \o HeaderCases \o CapCases \o FragCases \o BodyCases \o BigBodyCases \o UnsupportedCases \o Dgram \o WithHdrCases)
+ASSUME TLCSet(1, FrameCases \o HeaderCases \o CapCases \o FragCases \o BodyCases \o BodyLieCases \o BigBodyCases \o UnsupportedCases \o Dgram \o WithHdrCases)
 Cases == TLCGet(1)
 N == Len(Cases)
 
@@ -172,6 +187,8 @@ DatagramRecordByRecord ==
   LET c == Cases[i] IN
   c.kind = "dgram" => (res.k = "ok" /\ Len(res.v) = c.want[1] /\ (c.total > 0 => res.p = c.total))
 
+(* a complete message never asks for more bytes *)
+CompleteIsFinal == Cases[i].kind = "bodylie" => res.k # "inc"
 Pin ==
   LET c == Cases[i] IN
   IF c.kind \in {"frame", "cap"} THEN
